@@ -1,5 +1,44 @@
-(* C06 - property theorems only. *)
-From HV Require Import Prelude C06_Model C06_Check C06_Proofs.
+(* C06 - property theorems only.  [read], [check_header false], [to_str] are the
+   Gallina model (C06_Model) of Haplotypes.read / check_header / to_str after
+   fixes/C06_short_comment.patch and fixes/C06_norecords_header.patch. *)
+From HV Require Import Prelude C06_Model C06_Check C06_Proofs C06_Proofs2 C06_Proofs3 C06_Proofs4 C06_Proofs5.
+
+(* ---- comment lines ---------------------------------------------------------- *)
+
+Theorem C06_comments_ignored :
+  forall c sel s l1 l2, pure_comment s = true ->
+  read c sel (l1 ++ LHash s :: l2) = read c sel (l1 ++ l2).
+Proof. exact comments_ignored. Qed.
+Print Assumptions C06_comments_ignored.
+
+Theorem C06_comments_ignored_many :
+  forall c sel (ls : list (line * bool)),
+  forallb (fun x => negb (snd x) || match fst x with LHash s => pure_comment s | _ => false end) ls = true ->
+  forall pre,
+  read c sel (pre ++ map fst ls) = read c sel (pre ++ map fst (filter (fun x => negb (snd x)) ls)).
+Proof. exact comments_ignored_many. Qed.
+Print Assumptions C06_comments_ignored_many.
+
+Theorem C06_check_header_comments :
+  forall c cv softly (ls : list (str * bool)),
+  forallb (fun x => negb (snd x) || pure_comment (fst x)) ls = true ->
+  forall pre,
+  check_header false c cv softly (pre ++ map fst ls)
+  = check_header false c cv softly (pre ++ map fst (filter (fun x => negb (snd x)) ls)).
+Proof. exact check_header_comments. Qed.
+Print Assumptions C06_check_header_comments.
+
+(* the shapes named by the property: '#', '# text', '#text', '#\ttext' *)
+Theorem C06_comment_shapes :
+  pure_comment [cHASH] = true
+  /\ (forall rest, pure_comment (cHASH :: 32 :: rest) = true)
+  /\ (forall c1 rest, c1 <> cTAB -> is_type_letter c1 = false -> pure_comment (cHASH :: c1 :: rest) = true)
+  /\ (forall name rest, ~ In cTAB name -> name <> s_version -> order_letter name = None ->
+        pure_comment (cHASH :: cTAB :: name ++ match rest with [] => [] | _ => cTAB :: rest end) = true).
+Proof.
+  exact (conj bare_hash_pure (conj hash_space_pure (conj hash_text_pure hash_tab_text_pure))).
+Qed.
+Print Assumptions C06_comment_shapes.
 
 Example C06_legacy_short_comment_refuted :
   check_header true cfg0 true true [[35]] = Err ErrIndex
@@ -9,3 +48,165 @@ Example C06_legacy_short_comment_refuted :
   /\ check_header true cfg0 true true [] <> Err ErrIndex.
 Proof. exact legacy_short_comment_refuted. Qed.
 Print Assumptions C06_legacy_short_comment_refuted.
+
+(* ---- versions ------------------------------------------------------------------ *)
+
+Theorem C06_version_decision :
+  forall softly cur v oM om op eM em ep,
+  parse3 v = Some (oM, om, op) -> parse3 cur = Some (eM, em, ep) ->
+  (reported v (check_version softly cur v) <-> (oM <> eM \/ om > em)).
+Proof. exact version_decision. Qed.
+Print Assumptions C06_version_decision.
+
+Theorem C06_version_supported_quiet :
+  forall softly cur v oM om op eM em ep,
+  parse3 v = Some (oM, om, op) -> parse3 cur = Some (eM, em, ep) ->
+  oM = eM -> om <= em ->
+  check_version softly cur v =
+    Ok (if om <? em then [EvOutdated v] else if op <? ep then [EvPatch] else []).
+Proof. exact version_supported_quiet. Qed.
+Print Assumptions C06_version_supported_quiet.
+
+Example C06_version_examples :
+  let cur := [48; 46; 50; 46; 48] in
+  check_version true cur [49; 46; 48; 46; 48] = Ok [EvUnsupported [49; 46; 48; 46; 48]]
+  /\ check_version true cur [48; 46; 51; 46; 48] = Ok [EvUnsupported [48; 46; 51; 46; 48]]
+  /\ check_version true cur [48; 46; 49; 46; 48] = Ok [EvOutdated [48; 46; 49; 46; 48]]
+  /\ check_version true cur [48; 46; 50; 46; 49] = Ok []
+  /\ check_version false cur [49; 46; 48; 46; 48] = Err ErrVersionReported
+  /\ check_version true cur [48; 46; 50] = Err ErrValue.
+Proof. exact version_examples. Qed.
+Print Assumptions C06_version_examples.
+
+Theorem C06_header_version_reported :
+  forall c cv softly hs st v o e,
+  check_header false c cv softly hs = Ok st -> cv = true ->
+  In v (version_values hs) ->
+  parse3 v = Some o -> parse3 (cfg_version c) = Some e -> unsupported o e = true ->
+  softly = true /\ In (EvUnsupported v) (hs_logs st).
+Proof. exact header_version_reported. Qed.
+Print Assumptions C06_header_version_reported.
+
+(* read: unsupported versions and undeclared-but-required extras are reported,
+   also for a file without any record line *)
+Theorem C06_read_reports :
+  forall c sel ls d logs,
+  read c sel ls = Ok (d, logs) ->
+  (forall v o e, In v (version_values (header_of ls)) ->
+     parse3 v = Some o -> parse3 (cfg_version c) = Some e -> unsupported o e = true ->
+     In (EvUnsupported v) logs)
+  /\ (missing_spec c (header_of ls) = [] \/ In (EvMissing (missing_spec c (header_of ls))) logs).
+Proof. exact read_reports. Qed.
+Print Assumptions C06_read_reports.
+
+Example C06_legacy_norecords_unreported_refuted :
+  let file := [LHash [35; 9; 118; 101; 114; 115; 105; 111; 110; 9; 49; 46; 48; 46; 48]] in
+  read_legacy cfg0 None file = Ok ([], [])
+  /\ read cfg0 None file = Ok ([], [EvUnsupported [49; 46; 48; 46; 48]]).
+Proof. exact legacy_norecords_unreported_refuted. Qed.
+Print Assumptions C06_legacy_norecords_unreported_refuted.
+
+(* ---- extra fields ------------------------------------------------------------------ *)
+
+Theorem C06_extras_bound_by_name :
+  forall c t cols toks vals,
+  wf_columns c t cols = true ->
+  from_spec c t (field_types (base_types c t) cols) toks = Ok vals ->
+  expected_vals c t cols toks = Ok vals.
+Proof. exact extras_bound_by_name. Qed.
+Print Assumptions C06_extras_bound_by_name.
+
+Theorem C06_order_line_overrides_declarations :
+  forall c st st' t o,
+  hs_order st = hs_order st' -> zdict_get t (hs_order st) = Some o ->
+  types_for c st t = types_for c st' t.
+Proof. exact order_line_overrides_declarations. Qed.
+Print Assumptions C06_order_line_overrides_declarations.
+
+Example C06_skipped_column_example :
+  let beta := [98; 101; 116; 97] in let zz := [122; 122] in
+  let c := mkcfg (mkcls [(beta, TFlt)] [mkx beta [46; 50; 102] []]) (mkcls [] []) (mkcls [] []) [48; 46; 50; 46; 48] in
+  let toks := [tn 0; ti 1 10 2; ti 3 20 4; tn 5; tn 6; tf 7 8] in
+  wf_columns c cH [zz; beta] = true
+  /\ from_spec c cH (field_types (base_types c cH) [zz; beta]) toks
+     = Ok [VStr 0; VInt 10; VInt 20; VStr 5; VFlt 8]
+  /\ expected_vals c cH [zz; beta] toks = Ok [VStr 0; VInt 10; VInt 20; VStr 5; VFlt 8].
+Proof. exact skipped_column_example. Qed.
+Print Assumptions C06_skipped_column_example.
+
+Theorem C06_undeclared_required_reported :
+  forall c cv softly hs st,
+  check_header false c cv softly hs = Ok st ->
+  missing_spec c hs = []
+  \/ (softly = true /\ In (EvMissing (missing_spec c hs)) (hs_logs st)).
+Proof. exact undeclared_required_reported. Qed.
+Print Assumptions C06_undeclared_required_reported.
+
+Theorem C06_undeclared_required_raises :
+  forall c cv hs, missing_spec c hs <> [] -> is_err (check_header false c cv false hs) = true.
+Proof. exact undeclared_required_raises. Qed.
+Print Assumptions C06_undeclared_required_raises.
+
+Theorem C06_missing_depends_on_declared_set :
+  forall c hs hs',
+  (forall t n, In n (decl_names hs t) <-> In n (decl_names hs' t)) ->
+  missing_spec c hs = missing_spec c hs'.
+Proof. exact missing_depends_on_declared_set. Qed.
+Print Assumptions C06_missing_depends_on_declared_set.
+
+(* ---- meaning of the boolean checkers evaluated on the implementation's output ---------- *)
+
+Theorem C06_holds_version_soft_sound :
+  forall cur vals logs, holds_version_soft cur vals logs = true ->
+  forall v o e, In v vals -> parse3 v = Some o -> parse3 cur = Some e -> unsupported o e = true ->
+  In (EvUnsupported v) logs.
+Proof. exact holds_version_soft_sound. Qed.
+Print Assumptions C06_holds_version_soft_sound.
+
+Theorem C06_holds_missing_soft_sound :
+  forall c hs logs, holds_missing_soft c hs logs = true ->
+  missing_spec c hs = [] \/
+  exists m', In (EvMissing m') logs /\ forall x, In x (missing_spec c hs) -> In x m'.
+Proof. exact holds_missing_soft_sound. Qed.
+Print Assumptions C06_holds_missing_soft_sound.
+
+(* ---- round trip ---------------------------------------------------------------------------
+
+   Full statements (not proved at file level; validated on every run by the
+   `roundtrip` relation, whose agree/holds are evaluated on the implementation):
+
+     hap_roundtrip :
+       wf_cfg c = true -> wf_data c d = true -> (codec contract for every field of d) ->
+       exists lines, to_str c d = Ok lines /\ read c None lines = Ok (strip_data d, [])
+     write_read_write_idem :
+       ... -> to_str c (reformat (read c None lines)) = Ok lines
+
+   Proved: the per-record-line core of the first (to_hap_spec then from_hap_spec
+   under the header to_str emits is the identity on attribute values), the
+   reduction of the second to the codec contract (to_str depends on the
+   collection only through keys, kinds, structure and formatted texts), and a
+   worked instance of the file-level statement closed by computation. *)
+
+Theorem C06_hap_roundtrip_partial_line :
+  forall c t (vals : list fval) toks,
+  wf_cls (cls_of c t) = true ->
+  length vals = length (attr_names c t) ->
+  (forall n x ty, fkw_get n (attr_names c t) vals = Some x -> getv n (base_types c t) = Some ty ->
+     conv ty (fv_tok x) = Ok (fv_val x)) ->
+  fmt_fields (map fst (mand_of t) ++ extras_order (cls_of c t)) (attr_names c t) vals = Ok toks ->
+  from_spec c t (field_types (base_types c t) (extras_order (cls_of c t))) toks = Ok (map fv_val vals).
+Proof. exact line_roundtrip. Qed.
+Print Assumptions C06_hap_roundtrip_partial_line.
+
+Theorem C06_write_read_write_idem_partial :
+  forall c d1 d2, Forall2 same_toks_entry d1 d2 -> to_str c d1 = to_str c d2.
+Proof. exact to_str_tokens_only. Qed.
+Print Assumptions C06_write_read_write_idem_partial.
+
+Example C06_hap_roundtrip_example :
+  wf_cfg ex_cfg = true /\ wf_data ex_cfg ex_data = true
+  /\ exists lines, to_str ex_cfg ex_data = Ok lines
+       /\ length lines = 14%nat
+       /\ read ex_cfg None lines = Ok (strip_data ex_data, []).
+Proof. exact hap_roundtrip_example. Qed.
+Print Assumptions C06_hap_roundtrip_example.
